@@ -75,6 +75,8 @@ type Scenario struct {
 	Noise       int       `json:"bus_noise"`
 	// NoWatch: the party does not run Channel.Watch (it is optional for an honest user).
 	NoWatch [2]bool `json:"does_not_watch"`
+	// StrictRegister: the ledger refuses Register calls that would change nothing.
+	StrictRegister bool `json:"ledger_refuses_registrations_that_change_nothing,omitempty"`
 }
 
 // Generate draws a scenario.
@@ -234,6 +236,9 @@ func isTimeout(err error) bool {
 func New(rng *rand.Rand, sc Scenario) *Run {
 	r := &Run{Sc: sc, pending: map[string][]decision{}, Step: -1, SubStep: -1, reqs: map[string]string{}, answers: map[string]bool{}}
 	r.W = party.NewWorld(rng, sc.Assets, sc.Noise)
+	if sc.StrictRegister {
+		r.W.Ledger.RefuseIdleRegistrations()
+	}
 	r.W.Bus.AddTap(func(e *wire.Envelope) {
 		r.mu.Lock()
 		defer r.mu.Unlock()
